@@ -182,6 +182,7 @@ PROPS = {
                 "sender/receiver tasks through the real seq_join window; non-trivial iff >=1 multi-choice decision and >=2 records; "
                 "distinct by (world shape, schedule digest)",
         "scenarios": [
+            {"name": "c14_ur", "quick": 20000, "thorough": 400000, "offset": 2, "chunk": 2000},
             {"name": "c13_gw", "quick": 60000, "thorough": 600000, "offset": 1, "chunk": 400},
         ],
         "expected_probes": ["close_checks", "shard_streams_ended"],
@@ -241,7 +242,7 @@ PROPS = {
     "C19": {
         "level": "exploration",
         "rule": "run = seeded (shards in {1,2,3,5}, per-shard input lengths 0..200 incl. empty shards, picker in {table, all-to-one, round-robin, all-stay, skewed, PRSS}, "
-                "API in {reshard_iter, reshard_try_stream, reshard_aad}, size-hint slack, Pending plan, optional failing/over-long input on one node, gateway knobs, policy); "
+                "API in {reshard_iter, reshard_try_stream, reshard_aad}, size-hint slack, Pending plan, optional failing/over-long input on one node, a cross-shard chunk cut short or carrying an undecodable record, one record addressed to a shard that does not exist (must be loud), gateway knobs, policy); "
                 "non-trivial iff >=1 multi-choice decision and >=1 record; distinct by (shape, schedule digest)",
         "scenarios": [
             {"name": "c19_reshard", "quick": 6000, "thorough": 300000, "offset": 1, "chunk": 200},
@@ -333,9 +334,9 @@ MANIFEST_TEXT = {
         "technique": "deterministic simulation: seeded schedule + operand search over the real circuits with a big-integer reference",
     },
     "C05": {
-        "text": "Seeded exploration of the real sharded shuffle (semi-honest and malicious) on 3 helpers x {1,2,3,5} shards under a controlled scheduler, with unique attributable rows and arbitrary shard assignment. Fault-free oracle: the three helpers hold equally many rows per shard, every output row is a consistent replicated sharing, and the union over shards reconstructs exactly the input multiset. Tampered runs (malicious mode): the same seed is re-executed with one chunk of one helper's own MPC or shard-to-shard shuffle traffic rewritten; violation iff both honest helpers return rows on every shard while their shares no longer determine the input multiset (accepted-but-harmless rewrites of padding/trailing bytes are counted, not judged). Sampling, not proof.",
-        "design_ref": "DESIGN.md section 4, C05",
-        "note": "MAC tags are 32 bits: a forged row passes with probability 2^-32 per run; an honest helper that aborts (e.g. allocation failure on a forged cardinality) counts as 'no output'",
+        "text": "Seeded exploration of the real sharded shuffle (semi-honest and malicious) on 3 helpers x {1,2,3,5} shards under a controlled scheduler, with unique attributable rows and arbitrary shard assignment. Fault-free oracle: the three helpers hold equally many rows per shard, every output row is a consistent replicated sharing, and the union over shards reconstructs exactly the input multiset. Tampered runs (malicious mode): the same seed is re-executed with one chunk of one helper's own MPC or shard-to-shard shuffle traffic rewritten; violation iff both honest helpers return rows on every shard while their shares no longer determine the input multiset (accepted-but-harmless rewrites of padding/trailing bytes are counted, not judged). One tampered run in four uses an adaptive corrupt helper that forges a row with a valid tag as soon as the MAC keys have been opened to it (on that or another shard) while its last table is still going out: on this tree that succeeds in two situations, both recorded as known findings (keys are opened per shard and by the helper that finishes first, with no barrier). Sampling, not proof.",
+        "design_ref": "DESIGN.md section 4, C05 and section 7.2",
+        "note": "two known findings (premature opening of the MAC keys), see known_findings.json; MAC tags are 32 bits: a blindly forged row passes with probability 2^-32 per run; an honest helper that aborts (e.g. allocation failure on a forged cardinality) counts as 'no output'",
         "technique": "deterministic simulation: seeded schedule search + single-site Byzantine message rewriting over the real sharded shuffle",
     },
     "C19": {
